@@ -1,6 +1,7 @@
 package vc
 
 import (
+	"go/ast"
 	"fmt"
 	"go/constant"
 	"go/token"
@@ -650,6 +651,13 @@ func (x *exec) runInstrs(st *State, b *ssa.BasicBlock, idx int) {
 			next := i + 1
 			x.doCall(st, cs, func(st *State, res Val) {
 				st.top().env[ins] = res
+				if len(st.frames) == 1 {
+					if st.sites == nil {
+						st.sites = map[string]bool{}
+					}
+					st.sites[fmt.Sprintf("%s#%d", x.callDesc(ins), x.callOrdinal(st.top().fn, ins))] = true
+				}
+				x.ghostAfterCall(st, ins, res)
 				x.crashPoint(st, "after "+x.callDesc(ins), ins.Pos())
 				x.runInstrs(st, b, next)
 			})
@@ -778,7 +786,7 @@ func (x *exec) oblige(st *State, kind, label, detail string, goal Term, pos toke
 	if x.ctx.suppress > 0 {
 		return
 	}
-	if goal.IsTrue() || st.pcSet[goal.S] {
+	if (goal.IsTrue() || st.pcSet[goal.S]) && kind != "canary" {
 		x.ctx.trivial++
 		return
 	}
@@ -806,6 +814,12 @@ func (x *exec) oblige(st *State, kind, label, detail string, goal Term, pos toke
 	}
 	if pos.IsValid() {
 		ob.Pos = x.e.Fset.Position(pos)
+	}
+	if kind == "canary" {
+		for k := range st.sites {
+			ob.Sites = append(ob.Sites, k)
+		}
+		sort.Strings(ob.Sites)
 	}
 	x.ctx.Obls = append(x.ctx.Obls, ob)
 }
@@ -845,4 +859,84 @@ func (x *exec) callDesc(c *ssa.Call) string {
 		return c.Call.Method.Name()
 	}
 	return "call"
+}
+
+// ghostAfterCall executes the ghost assignments anchored after this call (contract directive
+// ghostcode). Ghost state only: the assignments cannot influence the executable code.
+func (x *exec) ghostAfterCall(st *State, ins *ssa.Call, res Val) {
+	fn := st.top().fn
+	ct := x.e.Specs.Contracts[CanonKey(fn)]
+	if ct == nil || len(ct.Ghost) == 0 {
+		return
+	}
+	name := x.callDesc(ins)
+	ord := x.callOrdinal(fn, ins)
+	for _, g := range ct.Ghost {
+		if g.Callee != name || g.Ord != ord {
+			continue
+		}
+		nq := 0
+		se := &specEnv{x: x, pkg: x.e.TPkg[ct.Pkg], vars: map[string]specVal{}, st: st, cur: st, frame: st.top(), nq: &nq, what: "ghostcode " + g.Src}
+		sig := ins.Call.Signature()
+		if tv, ok := res.(TupleV); ok {
+			for i, v := range tv {
+				se.vars[fmt.Sprintf("result%d", i)] = specVal{V: v, T: sig.Results().At(i).Type()}
+			}
+		} else if res != nil && sig.Results().Len() == 1 {
+			se.vars["result0"] = specVal{V: res, T: sig.Results().At(0).Type()}
+		}
+		rhs, ok := se.rval(se.evalRV(g.RHS.Expr)).(Term)
+		if !ok {
+			if p, isP := se.rval(se.evalRV(g.RHS.Expr)).(*PtrV); isP {
+				rhs = x.ptrTerm(p)
+			} else {
+				se.fail("right-hand side is not a scalar or set")
+			}
+		}
+		lhs := g.LHS.Expr
+		var key *Term
+		if ix, isIdx := lhs.(*ast.IndexExpr); isIdx {
+			k, ok := se.rval(se.evalRV(ix.Index)).(Term)
+			if !ok {
+				se.fail("index is not a scalar")
+			}
+			key = &k
+			lhs = ix.X
+		}
+		locs := x.modLocs(se, &Clause{Expr: lhs, Src: g.LHS.Src})
+		if len(locs) != 1 {
+			se.fail("left-hand side does not denote one ghost location")
+		}
+		l := locs[0]
+		if !strings.HasPrefix(l.key, "G.") && !strings.HasPrefix(l.key, "GV.") {
+			se.fail("left-hand side is not ghost state")
+		}
+		cur := x.getHeap(st, l.key, l.sort)
+		switch {
+		case l.ghostVar && key == nil:
+			x.setHeap(st, l.key, rhs, nil)
+		case l.ghostVar:
+			x.setHeap(st, l.key, Store(cur, *key, rhs), nil)
+		case l.obj == nil:
+			se.fail("left-hand side names every object's field")
+		case key == nil:
+			x.setHeap(st, l.key, Store(cur, *l.obj, rhs), l.obj)
+		default:
+			x.setHeap(st, l.key, Store(cur, *l.obj, Store(Select(cur, *l.obj), *key, rhs)), l.obj)
+		}
+	}
+}
+
+// callOrdinal: position of this call among the calls of the same name in fn, in source order (1-based).
+func (x *exec) callOrdinal(fn *ssa.Function, ins *ssa.Call) int {
+	name := x.callDesc(ins)
+	ord := 1
+	for _, b := range fn.Blocks {
+		for _, in := range b.Instrs {
+			if c, ok := in.(*ssa.Call); ok && c != ins && x.callDesc(c) == name && c.Pos() < ins.Pos() {
+				ord++
+			}
+		}
+	}
+	return ord
 }
